@@ -116,6 +116,15 @@ def run(chk):
                     k += 2
             src = "unsigned char a, b, y, z, i;\nramchip unsigned char r[12];\nvoid f() { %s }\nvoid main() { %s }\n" % (sh, " ".join(blocks))
             progs.append((src, ["f"]))
+    # ---- a body too long for a branch: the call guarded by a comparison (marked inline, the guard's branch has to
+    #      be repaired over the expanded body), every comparison operator, the compared value below / at / above the
+    #      bound; the call in an if, as the body of a while and of a do-while ----
+    big = " ".join("t[%d] = %d;" % (i, i + 1) for i in range(44))
+    for op in ("<", "<=", ">", ">=", "==", "!="):
+        for frame in ("if (x %s 5) f();", "while (x %s 5 && n < 2) { f(); n++; }", "do { f(); n++; } while (x %s 5 && n < 2);"):
+            blocks = " ".join("n = 0; x = %d; %s r[%d] = t[0]; r[%d] = n; t[0] = 0;" % (v, frame % op, 2 * j, 2 * j + 1) for j, v in enumerate((4, 5, 6)))
+            src = "unsigned char x, n;\nunsigned char t[44];\nramchip unsigned char r[6];\nvoid f() { %s }\nvoid main() { %s }\n" % (big, blocks)
+            progs.append((src, ["f"]))
     nstates = chk.scale(8, 32)
     for (src, names) in progs:
         names = names[:5]
